@@ -1,41 +1,62 @@
-"""Re-evaluate every delivered mutant and write /verif/seeded/<id>/{patch.diff,demo.py,notes.txt,meta.json}."""
+"""Seeded changes kept in /verif/seeded/<id>/ (patch.diff, demo.py, notes.txt, meta.json).
+usage: seedall.py                 re-evaluate every seeded change against /repo's HEAD and refresh meta.json
+       seedall.py import <suffix> <letters>   copy /tmp/mutants/Cxx<suffix>/{a,b} to seeded/Cxx<letters[0]>, Cxx<letters[1]>
+                                              (e.g. `import .out2 cd`) and evaluate them"""
 import json, os, shutil, subprocess, sys
 VERIF = os.path.dirname(os.path.dirname(os.path.abspath(__file__)))
-props = [json.loads(l) for l in open(os.path.join(VERIF, 'properties.jsonl'))]
-for p in props:
-    pid = p['id']
-    for x in 'ab':
-        d = f'/tmp/mutants/{pid}.out/{x}'
-        if not os.path.exists(os.path.join(d, 'patch.diff')):
-            continue
-        out = subprocess.run(['/venv/bin/python', os.path.join(VERIF, 'tools', 'evalmut.py'), pid, x],
-                             capture_output=True, text=True, timeout=3000).stdout
-        res = None
-        for l in out.splitlines():
-            try:
-                res = json.loads(l)
-            except Exception:
-                pass
-        if res is None:
-            print(pid, x, 'no result', out[-300:]); continue
-        sd = os.path.join(VERIF, 'seeded', f'{pid}{x}')
-        os.makedirs(sd, exist_ok=True)
-        for fn in ('patch.diff', 'demo.py', 'notes.txt'):
-            if os.path.exists(os.path.join(d, fn)):
-                shutil.copy(os.path.join(d, fn), os.path.join(sd, fn))
-        notes = open(os.path.join(d, 'notes.txt')).read() if os.path.exists(os.path.join(d, 'notes.txt')) else ''
-        det = res.get('detection', {}).get(pid, {})
-        detected = bool(det.get('lines') and any(l.startswith('VIOLATION') for l in det['lines'])) or \
-            (det.get('diffs', 0) or 0) > 0 or (det.get('monitor_rejections', 0) or 0) > 0
-        meta = {
-            'id': f'{pid}{x}', 'breaks_property': pid,
-            'origin': 'written by an independent sub-agent that saw only the property text and its own worktree',
-            'what_it_needs_to_manifest': notes.strip()[:1500],
-            'confirmed': {'existing_tests_with_change': res.get('tests'), 'demo_without_change_exit': res.get('demo_without_change_rc'),
-                          'demo_with_change_exit': res.get('demo_with_change_rc'), 'demo_message': res.get('demo_message')},
-            'ran': f'tools/evalmut.py {pid} {x}  (applies patch.diff to a scratch worktree, runs the test-suite, the demo with and '
-                   f'without the change, and the check of {pid} with SIMPROCESD_REPO pointing at the changed tree)',
-            'detected_by_check': detected, 'check_result': det,
-        }
-        json.dump(meta, open(os.path.join(sd, 'meta.json'), 'w'), indent=1)
-        print(pid + x, 'confirmed' if res.get('confirmed') else 'NOT CONFIRMED', 'DETECTED' if detected else 'MISSED', flush=True)
+SEED = os.path.join(VERIF, 'seeded')
+props = [json.loads(l)['id'] for l in open(os.path.join(VERIF, 'properties.jsonl'))]
+
+
+def evaluate(sd, pid):
+    out = subprocess.run(['/venv/bin/python', os.path.join(VERIF, 'tools', 'evalmut.py'), '--dir', sd, pid],
+                         capture_output=True, text=True, timeout=3000).stdout
+    res = None
+    for l in out.splitlines():
+        try:
+            res = json.loads(l)
+        except Exception:
+            pass
+    if res is None:
+        print(os.path.basename(sd), 'no result', out[-300:]); return
+    notes = open(os.path.join(sd, 'notes.txt')).read() if os.path.exists(os.path.join(sd, 'notes.txt')) else ''
+    det = res.get('detection', {}).get(pid, {})
+    detected = bool(det.get('lines') and any(l.startswith('VIOLATION') for l in det['lines']))
+    head = subprocess.run(['git', '-C', '/repo', 'rev-parse', '--short', 'HEAD'], capture_output=True, text=True).stdout.strip()
+    meta = {
+        'id': os.path.basename(sd), 'breaks_property': pid,
+        'origin': 'written by an independent sub-agent that saw only the property text and its own worktree',
+        'what_it_needs_to_manifest': notes.strip()[:1500],
+        'evaluated_against_repo_commit': head,
+        'confirmed': {'patch_applies': 'apply_failed' not in res, 'existing_tests_with_change': res.get('tests'),
+                      'demo_without_change_exit': res.get('demo_without_change_rc'),
+                      'demo_with_change_exit': res.get('demo_with_change_rc'), 'demo_message': res.get('demo_message')},
+        'ran': f'tools/evalmut.py --dir seeded/{os.path.basename(sd)} {pid}  (applies patch.diff to a scratch worktree of /repo, runs the '
+               f'test-suite, the demo with and without the change, and the check of {pid} with SIMPROCESD_REPO pointing at the changed tree)',
+        'detected_by_check': detected, 'check_result': det,
+    }
+    json.dump(meta, open(os.path.join(sd, 'meta.json'), 'w'), indent=1)
+    print(os.path.basename(sd), 'confirmed' if res.get('confirmed') else 'NOT CONFIRMED ' + str(res.get('apply_failed', ''))[:80],
+          'DETECTED' if detected else 'MISSED', (det.get('lines') or [''])[0][-40:], flush=True)
+
+
+if len(sys.argv) > 1 and sys.argv[1] == 'import':
+    suffix, letters = sys.argv[2], sys.argv[3]
+    for pid in (sys.argv[4:] or props):
+        for x, y in zip('ab', letters):
+            d = f'/tmp/mutants/{pid}{suffix}/{x}'
+            if not os.path.exists(os.path.join(d, 'patch.diff')):
+                continue
+            sd = os.path.join(SEED, pid + y)
+            os.makedirs(sd, exist_ok=True)
+            for fn in ('patch.diff', 'demo.py', 'notes.txt'):
+                if os.path.exists(os.path.join(d, fn)):
+                    shutil.copy(os.path.join(d, fn), os.path.join(sd, fn))
+            evaluate(sd, pid)
+else:
+    only = sys.argv[1:]
+    for name in sorted(os.listdir(SEED)):
+        sd = os.path.join(SEED, name)
+        if os.path.isdir(sd) and os.path.exists(os.path.join(sd, 'patch.diff')) and (not only or name in only):
+            evaluate(sd, name[:3])
+subprocess.run(['/venv/bin/python', os.path.join(VERIF, 'harness', 'facts.py')], capture_output=True)
